@@ -231,7 +231,8 @@ func Build(r *rand.Rand, root string, o Opts) error {
 				}
 				fixes = append(fixes, attrs(p, false))
 			case x < 9:
-				tg := []string{"a", "../..", "/abs/path", "dangling target", nm}[r.Intn(5)]
+				// also targets that are not lexically canonical: a link's target is data, not a path to be cleaned
+				tg := []string{"a", "../..", "/abs/path", "dangling target", nm, "./a", "dir/", "a/../b", "..//x", "/etc/./passwd", "a/."}[r.Intn(11)]
 				if err := os.Symlink(tg, p); err != nil {
 					return err
 				}
